@@ -3,9 +3,10 @@ CONSTANTS
   NK = 4
   BatchSet = "full"
   Callers = {1,2}
-  Ops = {"TRead","Translate","Restart","RApply","RStop","RResume","RCut"}
+  Ops = {"TRead","Translate","Restart","RApply","RRecv","RReassign","RStop","RResume","RCut"}
   Depth = 10
   Recheck = TRUE
+  DropInFlight = TRUE
   MaxSeq = 99
   MaxRestart = 99
   Sample = TRUE
